@@ -60,6 +60,16 @@ def outcome(fn):
 def vary(rng, fi, op):
     """an op differing from `op` in exactly one argument (near collision)"""
     op = list(op)
+    if op[0] in ('zsc', 'trc') and len(fi.z) > 1:
+        # reads by sample coordinate: a neighbouring sample of the axis (fractional on sub-millisecond axes, where two
+        # coordinates share their integer part)
+        js = [i for i in range(1, len(op)) if isinstance(op[i], float)] if op[0] == 'trc' else [1]
+        if js:
+            i = int(rng.choice(js))
+            zl = [float(v) for v in fi.z]
+            at = min(range(len(zl)), key=lambda j: abs(zl[j] - float(op[i])))
+            op[i] = type(op[i])(zl[min(len(zl) - 1, max(0, at + int(rng.choice([-1, 1, 2, -2]))))])
+            return tuple(op)
     idx = [i for i in range(1, len(op)) if isinstance(op[i], int) and not isinstance(op[i], bool)]
     if not idx:
         return tuple(op)
@@ -70,7 +80,7 @@ def vary(rng, fi, op):
 
 def history(rng, fi, length):
     base = readcheck.in_range_ops(rng, fi, 2)
-    base = [o for o in base if o[0] not in ('ilno', 'xlno', 'zsc', 'trc', 'vol')]
+    base = [o for o in base if o[0] != 'vol']      # (reads by line number and by sample coordinate included)
     T = fi.tracecount
     stored = sorted(fi.arrays)
     if stored:
